@@ -230,6 +230,10 @@ def check_vector(vec, seed, full):
             top, bot = ref(r0, 1, k, w), ref(r0 + k, 1, h - k, w)
             for fn in FNS:
                 sh.formula(f'={fn}({top},{bot})', vec[KEY[fn]], f'{fn}(top,bottom){tag}')
+            # SUBTOTAL(n, ref1, ref2) names the same function over all references
+            for num, fn in SUBTOTAL.items():
+                sh.formula(f'=SUBTOTAL({num},{top},{bot})', vec[KEY[fn]],
+                           f'SUBTOTAL({num},top,bottom){tag}')
             if errfree:
                 sh.formula(f'=SUM({top})+SUM({bot})', vec['sum'], f'SUM(top)+SUM(bottom){tag}')
                 sh.formula(f'=COUNT({top})+COUNT({bot})', vec['count'],
